@@ -488,7 +488,24 @@ def fam_serde(rng):
     return prog_with_setup(rng, th, reuse=rng.choice(["never", "lifo"]))
 
 
+def fam_rcu_reentrant(rng):
+    """C06: closures that themselves write the same (or another) container: a competing write in every retry window"""
+    n = rng.choice([1, 2, 3, 7, 40, 1, 2, 3, 7, 40, 5000])
+    c2 = rng.choice([0, 0, 1])
+    inner = rng.choice([{"op": "store", "c": c2, "v": new()}, {"op": "rcu", "c": c2, "h": 1 * R + 9}])
+    ops = [{"op": "rcu", "c": 0, "h": 1 * R, "nested": [inner], "nested_until": n}, {"op": "deref_h", "h": 1 * R},
+           {"op": "load_full", "c": 0, "h": 1 * R + 1}, {"op": "deref_h", "h": 1 * R + 1}]
+    th = [ops]
+    if rng.random() < 0.5 and n < 100:
+        th.append(writer_ops(rng, 2, 0, rng.randrange(1, 3)))
+    p = prog_with_setup(rng, th, cs=(0, 1), strategy=rng.choice(["default", "nofast"]), reuse="never", pnull=0.0)
+    if n > 100:
+        p["step_limit"] = 1500000
+    return p
+
+
 FAMILIES = {
+    "rcu_reentrant": fam_rcu_reentrant,
     "serde": fam_serde,
     "cache2": fam_cache2,
     "access": fam_access,
